@@ -460,12 +460,13 @@ var jsAllDirectives = []string{"|json", "|bidiSpanWrap", "|bidiUnicodeWrap", "|e
 
 var jsGlobals = data.Map{
 	"G_NULL": data.Null{}, "G_T": data.Bool(true), "G_F": data.Bool(false), "G_I": data.Int(42), "G_NEG": data.Int(-7),
-	"G_BIG": data.Int(1 << 52), "G_FL": data.Float(2.5), "G_FL3": data.Float(3), "G_S": data.String("he said \"hi\"\n</script>'\\ "),
+	"G_BIG": data.Int(1 << 52), "G_FL": data.Float(2.5), "G_FL3": data.Float(3), "G_INF": data.Float(math.Inf(1)), "G_NINF": data.Float(math.Inf(-1)),
+	"G_NAN": data.Float(math.NaN()), "G_NZERO": data.Float(math.Copysign(0, -1)), "G_S": data.String("he said \"hi\"\n</script>'\\ "),
 	"G_S2": data.String("plain"), "g.dotted.NAME": data.String("\U0001F600 \U000F0000"),
 }
 
 var jsGlobalsByType = map[ty][]string{
-	tNull: {"G_NULL"}, tBool: {"G_T", "G_F"}, tInt: {"G_I", "G_NEG", "G_BIG"}, tFloat: {"G_FL", "G_FL3"}, tStr: {"G_S", "G_S2", "g.dotted.NAME"},
+	tNull: {"G_NULL"}, tBool: {"G_T", "G_F"}, tInt: {"G_I", "G_NEG", "G_BIG"}, tFloat: {"G_FL", "G_FL3", "G_INF", "G_NINF", "G_NAN", "G_NZERO"}, tStr: {"G_S", "G_S2", "g.dotted.NAME"},
 	tList: {"G_L"}, tMap: {"G_M"},
 }
 
@@ -569,7 +570,7 @@ func jsExtraCmd(g *bundleGen, s *gScope, depth int) (string, bool) {
 		return "{" + bigMapLiteral(r) + "|json}", true
 	case 4:
 		g.stat("print-global")
-		all := []string{"G_NULL", "G_T", "G_I", "G_NEG", "G_FL", "G_FL3", "G_S", "g.dotted.NAME", "G_L", "G_M"}
+		all := []string{"G_NULL", "G_T", "G_I", "G_NEG", "G_FL", "G_FL3", "G_INF", "G_NINF", "G_NAN", "G_NZERO", "G_S", "g.dotted.NAME", "G_L", "G_M"}
 		return "{" + all[r.Intn(len(all))] + "}", true
 	case 5:
 		g.stat("all-directives")
@@ -721,6 +722,10 @@ var jsHandSources = []string{
 	"{namespace n}\n/** @param __limit\n @param __index */\n{template .t}{$__limit}{foreach $__limit in $__index}{$__limit}{isLast($__limit)}{/foreach}{/template}\n",
 	"{namespace n}\n/** @param 1z */\n{template .t}{$1z}{let $2: 1 /}{$2}{/template}\n",
 	"{namespace n}\n{template .t}{G_L}{G_M}{G_NULL}{G_FL3}{G_BIG}{g.dotted.NAME}{G_S|id}{/template}\n",
+	// non-finite float globals (soyjs 2b9928c: NaN / Infinity / -Infinity, not +Inf) and the negative zero
+	"{namespace n}\n{template .t}{G_INF}{G_NINF}{G_NAN}{G_NZERO}{G_INF + 1}{-G_NINF}{/template}\n",
+	// the {ifempty} of a loop over range(…) (soyjs 2e1528d): `if (index == 0) {…}` after the loop, outside its frame
+	"{namespace n}\n/** @param n */\n{template .t}{foreach $i in range($n)}[{$i}]{ifempty}nothing{/foreach}|{for $i in range(2, $n)}{$i}{ifempty}E{let $i: 'x' /}{$i}{/for}|{foreach $i in range(0, 3, 2)}{$i}{foreach $j in range($i)}{$j}{ifempty}in{/foreach}{ifempty}no{/foreach}{/template}\n",
 	"{namespace n}\n{template .t private=\"true\" autoescape=\"contextual\"}{1|noAutoescape|escapeHtml}{2|id}{3|truncate:1}{4|truncate:1,false}{5|bidiSpanWrap|json}{/template}\n",
 	"{namespace n}\n{template .t}{1.0}{1e100}{-0.0}{1e-7}{123456789.0}{9223372036854775807}{-5}{- 5}{0x10}{/template}\n",
 	"{namespace n}\n{template .t}{['a': ['b': [1, [2, [:]]]], 'c': []]}{[]}{[:]}{[1, 'x', null, true, 2.5, G_I]}{/template}\n",
